@@ -32,9 +32,10 @@ That the stream does fit (`out ++ pending ≤ BrotliEncoderMaxCompressedSize`) i
 import BV.Props.C02
 import BV.Props.C20
 import BV.Lemmas.StreamTotal
+import BV.Model.StreamJob
 
 namespace BV.Props.C02Part
-open BV.Multi BV.Multi.Res BV.Lemmas.Multi BV.Stream
+open BV.Multi BV.Multi.Res BV.Lemmas.Multi BV.Stream BV.StreamJob
 
 /-! ## 1. the one-shot contract of a FINISH call, from C20 + the byte ledger -/
 
@@ -100,11 +101,8 @@ theorem finish_call_contract_fresh {o : Oracle} {fuel cap : Nat} {input : Bytes}
 
 /-! ## 2. `compress_part` over the stream model -/
 
-/-- what the loop of `compress_part` observes of one `compress_stream(FINISH)` call of the stream
-model that was offered `inLen` bytes: return value, `is_finished()`, `next_in_offset`, the bytes
-written to `mem` -/
-def observed (inLen : Nat) (s' : St) (io' : Io) (r : Bool) : EncAns :=
-  .ans ⟨r, isFinished s', inLen - io'.availIn, io'.out⟩
+/-! `observed` (what the loop of `compress_part` sees of the call) is `BV.StreamJob.observed`,
+BV/Model/StreamJob.lean. -/
 
 /-- the states `compress_part` can be in when it issues its call: fresh, or (after a dictionary
 call) initialised, `processing`, outside a metadata block -/
